@@ -25,7 +25,7 @@ class C03(RailsProp):
     rule = ("one scenario = one generated configuration + 2-4 turn conversation; it is executed once fault-free (N action calls: input-rail / output-rail / dialog / shipped self-check proxies) and then once per "
             "single fault position and per enumerated/sampled pair, with exception types RuntimeError/KeyError/asyncio.TimeoutError/ValueError. evaluations = executions; "
             "non-trivial = faulted executions in which the fault really fired; distinct = distinct (config class, call-site kind(s), turn position(s), exception type)")
-    expected_probes = ["fault_in_input_rail", "fault_in_output_rail", "fault_in_dialog_action", "fault_then_later_turn", "pair_faults"]
+    expected_probes = ["fault_in_retrieval_rail", "fault_in_input_rail", "fault_in_output_rail", "fault_in_dialog_action", "fault_then_later_turn", "pair_faults"]
     exhaustive_parts = ["every single action call index of every sampled scenario", "every pair of call indexes when the fault-free run has <= 6 action calls"]
     quick_runs = 64
     thorough_runs = 3000
@@ -41,6 +41,9 @@ class C03(RailsProp):
             tk = convo.tok(0, t)
             sc["convs"][0]["turns"].append({"tok": tk, "text": "topic %d SECRET0_%d %s" % (t % 3, t, tk)})
             sc["intents"][tk] = "topic %d" % (t % 3)
+        if sc["colang"] == "1.0" and sc["mode"] in ("dialog", "single_call", "multistep") and d.chance(0.4, "retrails"):
+            # a retrieval rail (runs inside the flow that generates the bot message): one more action a turn depends on
+            sc["ret_rails"] = 1
         sc["faults"] = "enumerate"
         sc["pair_seed"] = d.randint(0, 1 << 30, "pair_seed")
         sc["pair_budget"] = 10 if tier == "quick" else 40
@@ -60,7 +63,7 @@ class C03(RailsProp):
             return world, records, fired
         sites = []
         for (n, kind, name) in fired:
-            site = "dialog" if kind == "dialog" else ("input-rail" if name.startswith("in") else "output-rail")
+            site = "dialog" if kind == "dialog" else "retrieval-rail" if kind == "retrieval" else ("input-rail" if name.startswith("in") else "output-rail")
             sites.append(site)
             out.probe("fault_in_" + site.replace("-", "_") + ("_action" if site == "dialog" else ""))
         if len(fired) >= 2:
@@ -95,6 +98,14 @@ class C03(RailsProp):
                             what = "guarded-text" if rec.tok in m.group(0) else "stale-turn-text"
                             out.violate("unchecked-text-after-failed-input-rail", "%s:%s" % (cc, what),
                                         "turn %d %s: input rail %s raised but the reply carries LLM text: %r; faults %r" % (rec.t, rec.tok, fe["rail"], rec.reply, faults))
+                    if fe["kind"] == "retrieval":
+                        # what the failed retrieval rail was guarding (the retrieved context for this turn's answer) is not approved:
+                        # no answer is generated from it
+                        later_gen = [g for g in ev if g["kind"] == "gen" and g["idx"] > fe["idx"] and g["task"] in ("generate_bot_message", "generate_intent_steps_message")]
+                        m = RR.LLM_TEXT_RE.search(reply_text)
+                        if later_gen or (m and rec.tok in m.group(0)):
+                            out.violate("generation-after-failed-retrieval-rail", "%s:%s" % (cc, later_gen[0]["task"] if later_gen else "reply"),
+                                        "turn %d %s: retrieval rail %s raised, yet %s; reply %r; faults %r" % (rec.t, rec.tok, fe["name"], ("%s was prompted afterwards" % later_gen[0]["task"]) if later_gen else "the reply carries LLM text of this turn", rec.reply, faults))
                     if fe["kind"] == "rail" and fe["rail"].startswith("out"):
                         guarded = fe.get("text") or ""
                         bad = None
@@ -157,7 +168,7 @@ class C03(RailsProp):
             w2, recs2, fired = self.run_faulted(sc, faults, tr, out)
             out.evaluations += 1
             for (nn, kind, name) in fired:
-                turn = next((r.t for r in recs2 if any(e.get("n") == nn and e["kind"] in ("rail", "dialog", "shipped") for e in r.events)), -1)
+                turn = next((r.t for r in recs2 if any(e.get("n") == nn and e["kind"] in ("rail", "dialog", "shipped", "retrieval") for e in r.events)), -1)
                 out.nontrivial_sigs.append((cc, kind, name[:3], turn, tuple(t for _, t in faults), len(faults)))
         out.sim_seconds = getattr(world, "sim_seconds", 0.0)
         out.digest = tr.digest()
